@@ -237,3 +237,17 @@ pub fn touch_write(_id: usize) {}
 pub const TOUCH_SHUTDOWN: usize = 60;
 pub const TOUCH_LAST_ENACTED: usize = 61;
 pub const TOUCH_NEXT_REINDEX: usize = 62;
+
+/// Reindex batch size (H10): a migration batch ends after the first index page that brings the batch to this many
+/// entries (the crate's own limit of 8192 still applies). Default: no effect. A small value makes a growth take
+/// several batches (several log records) with a handful of keys, so that commits, restarts and crashes can be
+/// placed between the batches of one migration.
+static REINDEX_BATCH: AtomicUsize = AtomicUsize::new(usize::MAX);
+
+pub fn set_reindex_batch(n: usize) {
+	REINDEX_BATCH.store(n, Ordering::SeqCst);
+}
+
+pub fn reindex_batch() -> usize {
+	REINDEX_BATCH.load(Ordering::SeqCst)
+}
